@@ -42,7 +42,21 @@ FRESH_METHODS = {"copy", "sum", "max", "min", "any", "all", "cumsum", "argsort",
 VIEW_CALLS = {"np.asarray", "np.broadcast_to", "np.squeeze", "np.expand_dims", "np.atleast_1d", "np.reshape", "np.moveaxis", "np.broadcast_arrays",
               "deepfirst", "deepmap", "_concatenate2", "cast", "copy.deepcopy"}
 VIEW_METHODS = {"reshape", "squeeze", "transpose", "view", "ravel", "swapaxes"}
-INPLACE_METHODS = {"partition", "fill", "sort", "update", "append", "extend"}
+INPLACE_METHODS = {"partition", "fill", "sort", "update", "append", "extend", "resize", "itemset", "put", "setfield", "setflags", "byteswap",
+                   "setdefault", "pop", "popitem", "clear", "remove", "insert", "reverse", "add", "discard"}
+# third-party functions that WRITE INTO their first argument
+INPLACE_CALLS = {"np.copyto", "np.put", "np.place", "np.putmask", "np.put_along_axis", "np.fill_diagonal", "np.random.shuffle", "np.ndarray.sort",
+                 "np.ndarray.fill", "setattr", "object.__setattr__", "operator.setitem", "operator.iadd", "delattr"}
+# unclassified callees that are reviewed NOT to write into their arguments (constructors of flox's own dataclasses, the generic
+# callables flox receives -- user/registry kernels, assumed pure: exercised by K5 -- and method chains on fresh temporaries).
+# Every OTHER unclassified callee is translated as "may write into every argument" (fail-closed).
+PURE_UNKNOWN = {"AlignedArrays", "ScanState", "FactorProps", "combine", "reduction", "method", "func", "finalize", "agg.finalize", "preprocess",
+                "binary_op"}
+
+
+UNKNOWN_METHODS = set()
+# methods (on a named receiver) reviewed not to modify the receiver; any other unclassified method counts as a write into it
+PURE_METHODS = {"finalize", "result", "COO"}   # agg.finalize(*intermediates): user/registry finaliser (assumed pure, K5); Future.result(); sparse.COO constructor
 
 
 def q(s):
@@ -179,6 +193,9 @@ class Extract(ast.NodeVisitor):
                 return
             # unknown method: may return a view of the receiver or of an argument
             f.add("Load", target, sorted({recv} | {n for a in argexprs for n in names(a)}))
+            UNKNOWN_METHODS.add((f.qual, nm))
+            if short not in PURE_METHODS:
+                f.add("Store", recv)      # fail-closed: an unreviewed method may modify its receiver
             return
         if nm in FRESH_CALLS or nm.startswith(("math.", "operator.", "xrdtypes.", "dtypes.")):
             f.add("Fresh", target)
@@ -208,6 +225,14 @@ class Extract(ast.NodeVisitor):
         # unclassified callee (third-party kernels, generic callables): may alias every argument
         f.add("Load", target, sorted({n for a in argexprs for n in names(a)}))
         f.add("Unknown", nm)
+        if nm in INPLACE_CALLS or nm.endswith(".at"):
+            if argexprs and base_name(argexprs[0]):
+                f.add("Store", base_name(argexprs[0]))
+        elif nm not in PURE_UNKNOWN and not (isinstance(c.func, ast.Attribute) and base_name(c.func) is None):
+            # fail-closed: an unreviewed callee may write into any of its arguments
+            for a in argexprs:
+                for n_ in names(a):
+                    f.add("Store", n_)
 
     # ---- statements
     def visit_Assign(self, n):
@@ -521,6 +546,9 @@ def main(out):
             if summ[qn]["stores"]:
                 print("STORES", qn, [fns[qn].params[i] for i in sorted(summ[qn]["stores"])])
         print(len(order), "functions")
+        for qn, nm in sorted(UNKNOWN_METHODS):
+            if qn in order:
+                print("UNKNOWN-METHOD", qn, nm)
     print(h.hexdigest())
 
 
